@@ -236,8 +236,8 @@ class Run(object):
         self._cur_sock().write_dead = True
         self.trace.append({'ev': 'PeerDeaf'})
 
-    def user_put(self, kind, f=()):
-        self.p.send(user_pdu(kind, f))
+    def user_put(self, kind, f=(), obj=None):
+        self.p.send(obj if obj is not None else user_pdu(kind, f))
         self.trace.append({'ev': 'UserPut', 'item': {'k': kind, 'f': list(f), 'pdvs': [], 'grey': False}})
 
     def user_gen(self, fids):
